@@ -24,27 +24,27 @@ import (
 func init() { engines["connclose"] = engineConnClose }
 
 type ccThread struct {
-	tid    int
-	kind   int // model thread kind
-	id     uint32
-	park   *c07Park
-	done   chan struct{}
-	mask   int64
+	tid  int
+	kind int // model thread kind
+	id   uint32
+	park *c07Park
+	done chan struct{}
+	mask int64
 	// results
-	closeErr error
-	callErr  error
-	callID   uint32
-	admitted bool
-	logFrom  int
-	finished bool
-	handler  *c07Handler
-	outcome  [2]int64
-	silent   bool
-	oc       *ccOutCall
-	errBase  int
-	regID    uint32
-	inBase   int
-	isParked int32
+	closeErr      error
+	callErr       error
+	callID        uint32
+	admitted      bool
+	logFrom       int
+	finished      bool
+	handler       *c07Handler
+	outcome       [2]int64
+	silent        bool
+	oc            *ccOutCall
+	errBase       int
+	regID         uint32
+	inBase        int
+	isParked      int32
 	startedClosed bool
 	outBefore     int
 }
